@@ -194,6 +194,8 @@ def gen_config(seed, tier='quick', family=None, index=None):
     nl = random.Random(core.sub_seed(seed, 'names'))
     cfg['out_stem'] = nl.choice(['results'] * 6 + ['scan_Jz_0.5', 'run.v2', 'chi_16.g_1.25', 'a.b'])
     cfg['neighbour'] = nl.random() < (0.6 if '.' in cfg['out_stem'] else 0.15)
+    # the job script protects finished results: "skip if the output exists" (no output exists when the run starts)
+    cfg['skip_if_output_exists'] = (not cfg['preexisting_output']) and nl.random() < 0.12
     return cfg
 
 
@@ -239,6 +241,8 @@ def build_params(cfg, out_name=None):
         'save_every_x_seconds': cfg['save_every'],
         'overwrite_output': bool(cfg['preexisting_output']),
     }
+    if cfg.get('skip_if_output_exists'):
+        params['skip_if_output_exists'] = True
     if cfg.get('group_sites', 1) > 1:
         params['group_sites'] = cfg['group_sites']
     if not cfg.get('measure_initial', True):
